@@ -8,7 +8,7 @@ from . import ftlib as F
 
 ID = "C05"
 CHECKER = "chk_named"
-THEOREMS = ['C05_q2r_decomposition', 'C05_r2q_decomposition', 'C05_transforms_agree_q2r', 'C05_transforms_agree_q2r_unc', 'C05_transforms_agree_r2q', 'C05_transforms_agree_r2q_unc', 'C05_transforms_agree_q2r_full', 'C05_transforms_agree_r2q_full']
+THEOREMS = ['C05_q2r_decomposition', 'C05_r2q_decomposition', 'C05_transforms_agree_q2r', 'C05_transforms_agree_q2r_unc', 'C05_transforms_agree_r2q', 'C05_transforms_agree_r2q_unc', 'C05_transforms_agree_q2r_full', 'C05_transforms_agree_r2q_full', 'C05g_q2r_decomposition', 'C05g_r2q_decomposition', 'C05g_q2r_decomposition_binary64', 'C05g_two_over_pi_binary64']
 RULE = ("all 24 named transforms x {Lorch, omitted-range} on/off x with/without uncertainties (exhaustive over methods and options), "
         "sampled grids/data/material constants; all three returned arrays compared; non-trivial = some output differs from the all-zero "
         "input's output; distinct by input hash")
